@@ -895,9 +895,74 @@ class Model:
         cache = self.__dict__.setdefault("_normal_cache", {})
         if id(fd) not in cache:
             from pta.pat import canon
-            cache[id(fd)] = canon(self.expand_locals(self.comprehensions(
-                self.expand_locals(self.inlined(fd)))))
+            cache[id(fd)] = self.fold_constants(canon(self.expand_locals(self.comprehensions(
+                self.expand_locals(self.inlined(fd))))))
         return cache[id(fd)]
+
+    def split_tuples(self, fd):
+        """copy of ``fd`` with ``a, b = x, y`` written as two assignments"""
+        new = _cp(fd)
+        _split_tuple_assigns(new)
+        ast.fix_missing_locations(new)
+        for p_ in ast.walk(new):
+            for ch in ast.iter_child_nodes(p_):
+                ch._parent = p_
+        new._parent = getattr(fd, "_parent", None)
+        new._derived = True
+        return new
+
+    def fold_constants(self, fd):
+        """A copy of ``fd`` in which the names of module-level constants (bound exactly
+        once, at the top level of the function's module, to a string or number
+        literal) are replaced by the literal, and ``len("literal")`` by its value:
+        'name the magic number' refactorings disappear."""
+        cache = self.__dict__.setdefault("_fold_cache", {})
+        if id(fd) in cache:
+            return cache[id(fd)]
+        mi = self.module_of(fd)
+        consts, count = {}, {}
+        for st in mi.tree.body:
+            tg = st.targets if isinstance(st, ast.Assign) else (
+                [st.target] if isinstance(st, ast.AnnAssign) and st.value is not None else [])
+            for t in tg:
+                if isinstance(t, ast.Name):
+                    count[t.id] = count.get(t.id, 0) + 1
+                    if isinstance(st.value, ast.Constant) and isinstance(
+                            st.value.value, (str, int, float)) \
+                            and not isinstance(st.value.value, bool):
+                        consts[t.id] = st.value
+        for n in ast.walk(mi.tree):      # rebound anywhere else: not a constant
+            if isinstance(n, ast.Name) and isinstance(n.ctx, ast.Store) \
+                    and n.id in consts and not isinstance(getattr(n, "_parent", None), (
+                        ast.Assign, ast.AnnAssign)):
+                count[n.id] = 2
+        consts = {k: v for k, v in consts.items() if count.get(k) == 1}
+        local = {n.id for n in _walk_same_scope(fd) if isinstance(n, ast.Name)
+                 and isinstance(n.ctx, ast.Store)} | {
+                     a.arg for a in fd.args.args + fd.args.kwonlyargs + fd.args.posonlyargs}
+
+        class Fold(ast.NodeTransformer):
+            def visit_Name(self, x):
+                if isinstance(x.ctx, ast.Load) and x.id in consts and x.id not in local:
+                    return ast.copy_location(_cp(consts[x.id]), x)
+                return x
+
+            def visit_Call(self, x):
+                self.generic_visit(x)
+                if isinstance(x.func, ast.Name) and x.func.id == "len" and len(x.args) == 1 \
+                        and isinstance(x.args[0], ast.Constant) \
+                        and isinstance(x.args[0].value, str) and not x.keywords:
+                    return ast.copy_location(ast.Constant(value=len(x.args[0].value)), x)
+                return x
+        new = Fold().visit(_cp(fd))
+        ast.fix_missing_locations(new)
+        for p_ in ast.walk(new):
+            for ch in ast.iter_child_nodes(p_):
+                ch._parent = p_
+        new._parent = getattr(fd, "_parent", None)
+        new._derived = True
+        cache[id(fd)] = new
+        return new
 
     def normal_wide(self, fd):
         """like :meth:`normal`, but functions of the same module called by their bare
@@ -1220,7 +1285,8 @@ class _ExprInliner(ast.NodeTransformer):
             return None
 
         def conv(stmts):
-            stmts = [s_ for s_ in stmts if not isinstance(s_, (ast.Pass, ast.Assert))]
+            stmts = [s_ for s_ in stmts if not isinstance(s_, (ast.Pass, ast.Assert, ast.Import,
+                                                              ast.ImportFrom))]
             if len(stmts) == 1 and isinstance(stmts[0], ast.Return) \
                     and stmts[0].value is not None:
                 return stmts[0].value
